@@ -175,25 +175,37 @@ theorem aggregated_text_of_outcomes (mt : Str → Str → Bool) (g : PGraph Str)
     applyAllText mt g rs = aggOf (rs.map fun r => (assertAppliesText mt r g).2) :=
   Pta.Agg.applyAllText_eq_aggOf mt g rs
 
-/-- **from a diagram.** The text-valued model of `DiagramRule.assert_applies`: no file — `ImproperlyConfigured`; a file
-    that does not parse — the parser's error; otherwise the aggregation over the rules generated from the parse result
-    with the base module prefixed. Its verdict class is that of the item-valued model `diagramAssert`. -/
+/-- **from a diagram.** The text-valued model of `DiagramRule.assert_applies` (after the repair of F-C13c): no file —
+    `ImproperlyConfigured`; a file that does not parse — the parser's error; a component (base module prefixed) that is not
+    a module of the architecture (`diagramMissing`) — a lookup error; otherwise the aggregation over the rules generated
+    from the parse result with the base module prefixed. Its verdict class is that of the item-valued model
+    `diagramAssert`. -/
 theorem diagram_text_is_aggregation (mt : Str → Str → Bool) (g : PGraph Str) (base : Option Str) (so : Bool) :
     diagramAssertText mt none base so g = .err .improperlyConfigured ∧
     (∀ c k, pumlParse c = .error k → diagramAssertText mt (some c) base so g = .err k) ∧
-    (∀ c p, pumlParse c = .ok p →
+    (∀ c p, pumlParse c = .ok p → diagramMissing (prefixParsed p base) g = true →
+      diagramAssertText mt (some c) base so g = .err .lookupError) ∧
+    (∀ c p, pumlParse c = .ok p → diagramMissing (prefixParsed p base) g = false →
       diagramAssertText mt (some c) base so g = applyAllText mt g (diagramRules so (prefixParsed p base))) ∧
     (∀ content, (diagramAssertText mt content base so g).cls = (diagramAssert mt content base so g).cls) := by
-  refine ⟨rfl, fun c k h => ?_, fun c p h => ?_, fun content => ?_⟩
+  refine ⟨rfl, fun c k h => ?_, fun c p h hm => ?_, fun c p h hm => ?_, fun content => ?_⟩
   · simp only [diagramAssertText, h]
-  · simp only [diagramAssertText, h]
+  · exact Pta.Repair.diagramAssertText_of_missing mt g so c base p h hm
+  · exact Pta.Repair.diagramAssertText_of_noMissing mt g so c base p h hm
   · cases content with
     | none => rfl
     | some c =>
-      simp only [diagramAssertText, diagramAssert]
-      cases pumlParse c with
-      | error k => rfl
-      | ok p => exact Pta.Agg.cls_eq_applyAll mt g _
+      cases hp : pumlParse c with
+      | error k => simp only [diagramAssertText, diagramAssert, hp]; rfl
+      | ok p =>
+        cases hm : diagramMissing (prefixParsed p base) g with
+        | true =>
+          rw [Pta.Repair.diagramAssertText_of_missing mt g so c base p hp hm,
+            Pta.Repair.diagramAssert_of_missing mt g so c base p hp hm]; rfl
+        | false =>
+          rw [Pta.Repair.diagramAssertText_of_noMissing mt g so c base p hp hm,
+            Pta.Repair.diagramAssert_of_noMissing mt g so c base p hp hm]
+          exact Pta.Agg.cls_eq_applyAll mt g _
 
 /-! ### non-vacuity: the diagram `exD` (ui → core → db) on the architecture `exBad` of Props/C07.lean -/
 
